@@ -398,7 +398,7 @@ func runC01(w *World, r *Report, tier string) {
 		n := 0
 		walkPaths(entryLoc(mf), nil, nil, 20000, func(path []ssa.Instruction, end pathEnd) {
 			ret, ok := path[len(path)-1].(*ssa.Return)
-			if !ok || !isNilConst(ret.Results[0]) || countOn(path, isEmit) > 0 {
+			if !ok || !isNilConst(rres(path, ret)[0]) || countOn(path, isEmit) > 0 {
 				return
 			}
 			n++
